@@ -154,6 +154,28 @@ def r3(prog, rep):
                             (isinstance(base.value, ast.Call) and dotted(base.value.func) == "type"):
                         n += 1
                         rep.violation("C18.R3", f"{f.qualname}:{norm(t)}", f"runtime store into class-level state `{norm(t)}`: shared by all models", f.loc(node))
+    # class-level *mutable* attributes that are mutated through an instance and never re-created per instance
+    am = AliasModel(prog)
+    for cls in prog.all_classes():
+        for attr, val in cls.class_attrs.items():
+            if not (isinstance(val, (ast.List, ast.Dict, ast.Set, ast.ListComp, ast.DictComp, ast.SetComp)) or
+                    (isinstance(val, ast.Call) and dotted(val.func) in ("list", "dict", "set", "defaultdict", "collections.defaultdict", "deque"))):
+                continue
+            per_instance = False
+            sites = []
+            for c in [cls] + prog.subclasses(cls.name):
+                for f in c.methods.values():
+                    s_ = am.get(f)
+                    if f.name == "__init__" and attr in s_.stores:
+                        per_instance = True
+                    sites += s_.attr_mut.get(attr, [])
+            key = f"{cls.name}.{attr}:class-level-mutable"
+            if sites and not per_instance:
+                n += 1
+                rep.violation("C18.R3", key, f"`{cls.name}.{attr}` is a class-level mutable object (`{norm(val)[:30]}`) that is mutated through instances "
+                              f"({sites[0].text} in {sites[0].func}) and never re-created in __init__: all instances - hence all models - share it", sites[0].loc)
+            else:
+                rep.ok("C18.R3", key, "class-level mutable is never mutated through an instance" if not sites else "re-created per instance in __init__", "", nontrivial=bool(sites))
     if n == 0:
         rep.ok("C18.R3", "no-shared-state-store", f"no store into class attributes / module globals in {sum(1 for _ in prog.all_functions())} functions", "")
 
